@@ -123,3 +123,20 @@ PROPS['C05'] = dict(
                 witnesses=['done', 'sz_constructed', 'partial_coverage', 'sz_onelist_constructed'],
                 validate=[{'upmask': 5, 'dnmask': 10}, {'upmask': 1, 'dnmask': 4}])],
 )
+
+PROPS['C20'] = dict(
+    claim='The real Lattice / TermStorage / LatticePresets code is executed symbolically (C++ exceptions included): labels are '
+          'forked over {known, known, unknown}, orbital and spin arguments are symbolic over the whole unsigned short range, '
+          'amplitudes are symbolic reals including exactly 0, site sizes range over [1,2]^4.',
+    bounds={Q: '2 sites with 1..2 orbitals and spins; one addTerm of order 2 or 4 (then a copy); all nine LatticePresets::add* '
+               'entry points with symbolic arguments; Spinflip/PairHopping factories', T: 'same'},
+    assumptions=['double read as exact real'],
+    outside=['histories of more than one rejected/accepted term', 'sites with more than 2 orbitals or spins'],
+    units=[dict(name='addterm', harness='h_lattice', defs=['SCEN=1'], split={'orbA': [1, 2], 'spnA': [1, 2], 'orbB': [1, 2], 'spnB': [1, 2]},
+                witnesses=['rejected', 'zero_ignored', 'stored', 'done'], validate=[{'orbA': 2, 'spnA': 2, 'orbB': 1, 'spnB': 2, 'l0': 0, 'l1': 1, 'o0': 1, 's0': 1}]),
+           dict(name='getsite', harness='h_lattice', defs=['SCEN=2'], witnesses=['lookups_done', 'done'], validate=[{}]),
+           dict(name='presets_args', harness='h_lattice', defs=['SCEN=3'], split={'orbA': [1, 2], 'spnA': [1, 2], 'orbB': [1, 2], 'spnB': [1, 2]},
+                witnesses=['preset_rejected', 'preset_accepted', 'done'],
+                validate=[{'orbA': 2, 'spnA': 2, 'orbB': 2, 'spnB': 2, 'preset': 5, 'l1': 0, 'l2': 1}]),
+           dict(name='term_factories', harness='h_lattice', defs=['SCEN=4'], witnesses=['done'], validate=[{'to1': 1, 'ts1': 1}])],
+)
